@@ -168,3 +168,20 @@ func SameCell(a, b []byte) bool {
 // executor's heap model (slice capacities included). Natively it returns 0, so
 // it may only be used in relations that also hold for the constant 0. (intercepted)
 func HeapSize(v any) int { return 0 }
+
+// ParLoops is the number of times Par repeats the pair of calls natively (set by
+// the replay driver for race-detector runs).
+var ParLoops = 1
+
+// Par runs f and g as two concurrent calls. Under the symbolic executor they are
+// two logical threads whose interleavings at synchronisation operations are
+// explored exhaustively, with a happens-before monitor over plain memory
+// accesses; natively they run in two goroutines. (intercepted)
+func Par(f, g func()) {
+	for i := 0; i < ParLoops; i++ {
+		done := make(chan struct{})
+		go func() { f(); close(done) }()
+		g()
+		<-done
+	}
+}
